@@ -1221,7 +1221,311 @@ def prop_C02(ctx):
     return ctx.finish()
 
 
+# ---------------------------------------------------------------------------------------------- C09
+def pat_matches(pat, lit):
+    """does the (integer or string) literal `lit` match pattern text `pat`?  None when not decidable here"""
+    pat = pat.replace(' ', '')
+    lit = lit.replace(' ', '')
+    for alt in pat.split('|'):
+        if alt == '_':
+            return True
+        if alt == lit:
+            return True
+        m = re.fullmatch(r'(-?\w+(?:::\w+)?)\.\.(=?)(-?\w+(?:::\w+)?)?', alt)
+        if m and re.fullmatch(r'-?\d+', lit):
+            def num(x):
+                if x in ('i32::MIN',):
+                    return -2 ** 31
+                return int(x) if re.fullmatch(r'-?\d+', x) else None
+            lo, hi = num(m.group(1)), (num(m.group(3)) if m.group(3) else None)
+            v = int(lit)
+            if lo is None or (m.group(3) and hi is None):
+                return None
+            if hi is None:
+                if v >= lo:
+                    return True
+            elif lo <= v and (v <= hi if m.group(2) else v < hi):
+                return True
+    return False
+
+
+def prop_C09(ctx):
+    ctx.build()
+    q = ctx.tier == 'quick'
+    recs = ctx.run_set('literal_pattern', gen.c09_cases(ctx.rng, 5000 if q else 50000), obs_sem, sem=True)
+    n = nrt = 0
+    for r in recs:
+        it = r['item']
+        if vlib.outcome_class(r['out']) != 'ok' or not r.get('sem'):
+            continue
+        spec = it.meta['spec']
+        from_arms = into_arms = None
+        for key, imp in oracles.sem_impls(r['sem']) or []:
+            if key is None:
+                continue
+            kind, fallible = key[0], key[1]
+            act = oracles.actual_enum_arms(imp, fallible)
+            if act is None:
+                ctx.report(r, 'conversion (%s): the body is not a single match' % kind, 'syn-parsed body', key='shape')
+                continue
+            scrut, arms = act
+            n += 1
+            if kind.startswith('from'):
+                # arms in variant declaration order: literal / pattern of each variant => that variant; then the default case
+                want = [((v['lit'] or v['pat']).replace(' ', ''), ('expr', 'E::' + v['name'])) for v in spec if (v['lit'] or v['pat'])]
+                plain = [v for v in spec if not (v['lit'] or v['pat'])]
+                got = [(p, b) for p, b in arms]
+                got_lp = [(p, b) for p, b in got if not re.fullmatch(re.escape(it.meta['cp']) + r'::V\d+', p)]
+                dfl = None
+                if got_lp and got_lp[-1][0] == '_' and got_lp[-1][1] == ('expr', 'dflt()'):
+                    dfl = got_lp[-1]
+                    got_lp = got_lp[:-1]
+                if got_lp != want:
+                    ctx.report(r, 'conversion (%s): arms are not the variants\' literals / patterns in declaration order: expected %r, generated %r' % (kind, want, got_lp),
+                               'declaration-order rule vs syn-parsed match', key='from-arms')
+                if it.meta['default'] and want and dfl is None:
+                    ctx.report(r, 'conversion (%s): the default case `_ => dflt()` is missing or not last' % kind, 'syn-parsed match', key='default-arm')
+                from_arms = got_lp + ([dfl] if dfl else [])
+            else:
+                want = []
+                for v in spec:
+                    if v['lit'] is not None:
+                        want.append(('E::' + v['name'], ('expr', v['lit'].replace(' ', ''))))
+                    elif v['pat'] is not None and v['into'] is not None:
+                        want.append(('E::' + v['name'], ('expr', oracles.nsp(v['into']))))
+                    else:
+                        want.append(('E::' + v['name'], None))
+                got = [(p, b) for p, b in arms if p != '_']
+                for (wp, wb), (gp, gb) in zip(want, got):
+                    if wb is not None and (gp != wp or gb != wb):
+                        ctx.report(r, 'conversion (%s): variant %s should convert to %r, generated arm %r => %r' % (kind, wp, wb, gp, gb), 'literal rule vs syn-parsed match',
+                                   key='into-arms')
+                into_arms = got
+        # round trip: literals pairwise distinct, no earlier arm's pattern matches the literal  =>  From(Into(V)) = V
+        if from_arms is not None and into_arms is not None:
+            lits = [v['lit'] for v in spec if v['lit'] is not None]
+            if len(set(lits)) == len(lits):
+                for v in spec:
+                    if v['lit'] is None:
+                        continue
+                    produced = dict(into_arms).get('E::' + v['name'])
+                    if not produced or produced[0] != 'expr':
+                        continue
+                    val = produced[1]
+                    hit = None
+                    undecided = False
+                    for p, b in from_arms:
+                        mres = pat_matches(p, val)
+                        if mres is None:
+                            undecided = True
+                            break
+                        if mres:
+                            hit = (p, b)
+                            break
+                    if undecided:
+                        continue
+                    nrt += 1
+                    earlier = False
+                    for w in spec:
+                        if w is v:
+                            break
+                        if w['pat'] is not None and pat_matches(w['pat'], v['lit']):
+                            earlier = True
+                    if earlier:
+                        continue
+                    if hit is None or hit[1] != ('expr', 'E::' + v['name']):
+                        ctx.report(r, 'round trip: %s converts to %s, which converts back to %r' % (v['name'], val, hit), 'first-match evaluation of the generated arms',
+                                   key='round-trip')
+    ctx.cov['matches_checked'] = n
+    ctx.cov['round_trips_evaluated'] = nrt
+    generic_sets(ctx, ['enum_grid'], vlib.obs_class)
+    return ctx.finish()
+
+
+# ---------------------------------------------------------------------------------------------- C03
+def literal_tree(e):
+    """nested struct literal of a SEM expression -> (type path, {field: text | subtree}), with duplicate detection"""
+    dups = []
+    def go(x):
+        if isinstance(x, list) and x[0] == 'struct':
+            d = {}
+            for f in x[2:]:
+                if f[0] == 'f':
+                    nm = oracles.sval(f[1])
+                    if nm in d:
+                        dups.append(nm)
+                    d[nm] = go(f[2])
+            return ('lit', oracles.sval(x[1]), d)
+        return oracles.sem_text(x)
+    return go(e), dups
+
+
+def any_duplicate_field(sem):
+    """(impl key, field) for every struct literal anywhere in the summary that names a field twice"""
+    out = []
+    def walk(x, key):
+        if isinstance(x, list):
+            if x and x[0] == 'struct':
+                seen = set()
+                for f in x[2:]:
+                    if isinstance(f, list) and f[0] == 'f':
+                        nm = oracles.sval(f[1])
+                        if nm in seen:
+                            out.append((key, oracles.sval(x[1]), nm))
+                        seen.add(nm)
+            for y in x:
+                walk(y, key)
+    for key, imp in oracles.sem_impls(sem) or []:
+        walk(imp, key)
+    return out
+
+
+def c03_expected_tree(it, dst_ty):
+    """nested literal the child tree of a c03_child item designates for an Into conversion"""
+    tree = dict(it.meta['tree'])
+    root = {}
+    nodes = {'': ('lit', dst_ty, root)}
+    for path in sorted(tree, key=lambda p: p.count('.')):
+        parent = path.rsplit('.', 1)[0] if '.' in path else ''
+        name = path.rsplit('.', 1)[-1]
+        d = {}
+        nodes[path] = ('lit', tree[path], d)
+        nodes[parent][2][name] = nodes[path]
+    return nodes
+
+
+def c03_grouped(flat):
+    """after the stable sort by first-seen path, are the members of every nesting node contiguous? (the order
+    condition under which the descent builds each node once; outside it: finding F-03a)"""
+    # a field without child path forms a group of its own (keyed by its name), in declaration order
+    key = [(path if path else '#' + str(fname)) for fname, path, _ in flat]
+    groups = []
+    for pth in key:
+        if pth not in groups:
+            groups.append(pth)
+    order = sorted(range(len(flat)), key=lambda i: groups.index(key[i]))
+    paths = [key[i] for i in order]
+    prefixes = set()
+    for pth in paths:
+        parts = pth.split('.') if (pth and not pth.startswith('#')) else []
+        for k in range(1, len(parts) + 1):
+            prefixes.add('.'.join(parts[:k]))
+    for pre in prefixes:
+        idx = [i for i, pth in enumerate(paths) if pth == pre or pth.startswith(pre + '.')]
+        if idx and idx != list(range(idx[0], idx[-1] + 1)):
+            return False
+    return True
+
+
+def prop_C03(ctx):
+    ctx.build()
+    q = ctx.tier == 'quick'
+    recs = ctx.run_set('flattening', gen.c03_cases(ctx.rng, 5000 if q else 50000), obs_sem, sem=True)
+    n = 0
+    for r in recs:
+        it = r['item']
+        if vlib.outcome_class(r['out']) != 'ok' or not r.get('sem'):
+            continue
+        gh0 = [a for a in it.attrs if a.name == 'ghosts' and '@' in (a.args or '')]
+        gp0 = re.match(r'([\w.]+)@', gh0[0].args).group(1) if gh0 else None
+        interleaved = it.meta['gen'] == 'c03_child' and not c03_grouped(list(it.meta['flat']) + ([('#ghost', gp0, None)] if gp0 else []))
+        for key, ty, fld in any_duplicate_field(r['sem']):
+            ctx.report(r, 'a nested struct literal of type %s names the field `%s` twice (an intermediate struct is built more than once)' % (ty, fld),
+                       'syn-parsed body', key='built-twice:interleaved' if interleaved else 'built-twice')
+        ims = oracles.sem_impls(r['sem']) or []
+        if it.meta['gen'] == 'c03_child' and it.shape == 'named':
+            flat = it.meta['flat']
+            named = it.shape == 'named'
+            ghosts = [a for a in it.attrs if a.name == 'ghosts']
+            gpath = None
+            if ghosts:
+                m = re.match(r'([\w.]+)@gz', ghosts[0].args)
+                gpath = m.group(1) if m else None
+            for key, imp in ims:
+                if key is None:
+                    continue
+                kind, fallible, cp, _ = key
+                n += 1
+                blk = oracles.fn_block(imp)
+                stmts = blk[1:] if blk else []
+                if kind in ('owned_into', 'ref_into'):
+                    e = stmts[-1][1] if stmts and stmts[-1][0] == 'tail' else None
+                    if fallible and isinstance(e, list) and e[0] == 'call' and oracles.sval(e[1]) == 'Ok' and len(e) == 3:
+                        e = e[2]
+                    if not (isinstance(e, list) and e[0] == 'struct'):
+                        ctx.report(r, 'conversion (%s): the result is not a struct literal' % kind, 'syn-parsed body', key='into-shape')
+                        continue
+                    got, dups = literal_tree(e)
+                    nodes = c03_expected_tree(it, 'A')
+                    for j, (fname, path, ren) in enumerate(flat):
+                        place = ren or fname
+                        nodes[path or ''][2][place] = 'self.%s' % fname
+                    if gpath is not None:
+                        nodes[gpath][2]['gz'] = '7'
+                    if got != nodes['']:
+                        ctx.report(r, 'conversion (%s): every nested struct must be built once with all and only its own members: expected %r, generated %r'
+                                   % (kind, nodes[''], got), 'nesting tree vs syn-parsed literal', key='into-tree:interleaved' if interleaved else 'into-tree')
+                elif kind.startswith('from'):
+                    m = oracles.actual_struct_meaning(imp, fallible, False)
+                    exp = {}
+                    for j, (fname, path, ren) in enumerate(flat):
+                        exp[fname] = 'value.' + ((path + '.') if path else '') + (ren or fname)
+                    if named:
+                        ok = m is not None and m[0] == 'named' and m[1] == exp
+                    else:
+                        ok = m is not None and m[0] == 'tuple' and sorted(m[1]) == sorted(exp.values())
+                        if ok and m[1] != [exp[f[0]] for f in flat]:
+                            ok = 'order'
+                    if ok == 'order':
+                        ctx.report(r, 'conversion (%s): a tuple struct is built positionally from the group-sorted field order: %r' % (kind, m), 'syn-parsed body', key='from-tuple-order')
+                    elif not ok:
+                        ctx.report(r, 'conversion (%s): each field must be read from counterpart.<child path>.<field>: expected %r, generated %r' % (kind, exp, m),
+                                   'nesting tree vs syn-parsed body', key='from-paths')
+                else:
+                    m = oracles.actual_struct_meaning(imp, fallible, True)
+                    exp = {}
+                    for j, (fname, path, ren) in enumerate(flat):
+                        exp['other.' + ((path + '.') if path else '') + (ren or fname)] = 'self.%s' % fname
+                    if gpath is not None:
+                        exp['other.%s.gz' % gpath] = '7'
+                    if not (m is not None and m[0] == 'assign' and m[1] == exp):
+                        cell = 'existing-index-child' if not named else 'existing-paths'
+                        ctx.report(r, 'conversion (%s): each field must be written to counterpart.<child path>.<field>: expected %r, generated %r' % (kind, exp, m),
+                                   'nesting tree vs syn-parsed body', key=cell)
+        elif it.meta['gen'] == 'c03_bare_parent':
+            pars = [f for f in it.members if any(a.name == 'parent' for a in f.attrs)]
+            named = it.shape == 'named'
+            for key, imp in ims:
+                if key is None:
+                    continue
+                kind, fallible, cp, _ = key
+                n += 1
+                text = oracles.sem_text(oracles.fn_block(imp))
+                if any(a.params.startswith('return') for a in it.attrs if hasattr(a, 'params')):
+                    continue
+                for j, f in enumerate(it.members):
+                    if f not in pars:
+                        continue
+                    own = f.name if named else str(j)
+                    if kind.startswith('from'):
+                        conv = {(False, False): '(&value).into()', (True, False): 'value.into()', (False, True): '(&value).try_into()?', (True, True): 'value.try_into()?'}[(kind == 'from_ref', fallible)]
+                        ok = (('%s:%s' % (own, conv)) in text) if named else (conv in text)
+                        why = 'a bare #[parent] field must be produced from the whole counterpart (%s)' % conv
+                    else:
+                        tgt = 'other' if kind.endswith('existing') else '&mutobj'
+                        recv = ('self.%s' % own) if kind.startswith('owned') else ('(&(self.%s))' % own)
+                        call = '%s.%sinto_existing(%s)%s' % (recv, 'try_' if fallible else '', tgt, '?' if fallible else '')
+                        ok = call in text
+                        why = 'a bare #[parent] field must be poured into the counterpart through its own into_existing conversion (%s)' % call
+                    if not ok:
+                        ctx.report(r, 'conversion (%s): %s; body: %s' % (kind, why, text[:400]), 'syn-parsed body', key='bare-parent')
+    ctx.cov['impls_checked'] = n
+    return ctx.finish()
+
+
 PROPS = {
+    'C03': prop_C03,
+    'C09': prop_C09,
     'C02': prop_C02,
     'C08': prop_C08,
     'C07': prop_C07,
